@@ -8,3 +8,15 @@ CLAIMS["C03"] = dict(
     note="Trusted: go/types+go/ssa of x/tools v0.50.0; the bufio/strconv/crc32 standard library; nilness is a conservative may-analysis. Not covered: value equality of round-trips, panics inside the standard library.",
     technique="static analysis: writer/reader table agreement over typed AST + SSA dominance/path queries",
 )
+CLAIMS["C02"] = dict(
+    ref="DESIGN.md §4 C02",
+    text="Decides the step ORDER that makes every crash window of the administrative protocols safe, on all control-flow paths: snapshot (BeginSnapshotMode < capture < successful rename onto the snapshot path < log truncate < EndSnapshotMode < re-append, snapshot written to a temp path: ORD-1); compaction and AOFWriter.ReplaceWith (ORD-2); temp files reused across crashes are opened fresh or removed first (ORD-3); a repaired log is fsynced (ORD-7); torn length fields cannot drive allocation (CDC-5). Which state a given (history, crash point) recovers to is NOT decided.",
+    note="Trusted: SSA control flow incl. error-edge recognition (`if err != nil`), os/bufio semantics (rename atomic, O_TRUNC). Not covered: journal/apply gap, double crashes, arena/snapshot consistency, value-level outcomes.",
+    technique="static analysis: must-precede / must-follow path queries over SSA control flow of the protocol functions",
+)
+CLAIMS["C14"] = dict(
+    ref="DESIGN.md §4 C14",
+    text="Decides the shape that keeps acknowledged writes from being dropped: every EndSnapshotMode result is re-journaled and every BeginSnapshotMode is paired with an End on all exits (ORD-4); the lazy writer's Flush/Sync/Close/EndSnapshot arms serve their promise only after a complete non-blocking drain of the write queue (ORD-5); sends to the writer goroutine watch closedCh (ORD-6); Engine.Close stops background work before closing the log and the core (ORD-8). Actual schedules are NOT explored.",
+    note="Trusted: SSA of LazyAOFWriter.run incl. closure resolution; Go channel FIFO semantics. Not covered: the journal/apply vs capture race (needs a gate the code does not have; see DESIGN.md), timing.",
+    technique="static analysis: typestate + must-pass-through (drain-dominates-effect) over SSA of the writer goroutine and the snapshot/rewrite functions",
+)
